@@ -442,6 +442,13 @@ def rule_tag_table(fx, col):
                         col.add('TAG-TABLE', '%s|generation increment' % b.fname, k is not None and k > 0 and k % (M + 1) == 0,
                                 'generation advanced by %s' % k, b.loc(bb, i))
     col.floor('TAG-TABLE', 'generation increments', n_inc, 1)
+    ks = set()
+    for b in fx.lib.bodies:
+        if b.key.startswith('arc_swap::debt::helping'):
+            for bb, t in b.calls():
+                if U.callee_name(t) in ('wrapping_add', 'checked_add', 'saturating_add', 'overflowing_add') and len(t['args']) == 2:
+                    ks.add(U.int_of(b, t['args'][1]))
+    col.add('TAG-TABLE', 'generation|one step everywhere', len(ks) == 1, 'the wrap predicate and the transaction counter advance by the same step: %s' % sorted(str(k) for k in ks))
     # Handover alignment
     h = fx.lib.adts.get('arc_swap::debt::helping::Handover')
     if col.anchor('TAG-TABLE', 'struct Handover', h is not None):
